@@ -172,9 +172,41 @@ func encodeAll(c codec, rs []vegeta.Result) ([]byte, []KV) {
 // encodeAllWithFailure also attempts, before record failAt, to encode a result that the JSON codec must refuse (a
 // timestamp that RFC 3339 cannot express): the call has to fail without leaving anything in the stream, now or later.
 func encodeAllWithFailure(c codec, rs []vegeta.Result, failAt int) ([]byte, []KV) {
+	return encodeAllMode(c, rs, failAt, false)
+}
+
+// encodeAllMode with reuse=true hands the encoder one Result variable for every record, overwritten in place (the header
+// map is cleared and refilled, the body buffer re-used), as a caller that pools its results would.
+func encodeAllMode(c codec, rs []vegeta.Result, failAt int, reuse bool) ([]byte, []KV) {
 	var buf bytes.Buffer
 	enc := c.enc(&buf)
 	frames := []KV{}
+	if reuse {
+		var slot vegeta.Result
+		for i := range rs {
+			hdr, body := slot.Headers, slot.Body
+			slot = rs[i]
+			if rs[i].Headers != nil {
+				if hdr == nil {
+					hdr = http.Header{}
+				}
+				for k := range hdr {
+					delete(hdr, k)
+				}
+				for k, vs := range rs[i].Headers {
+					hdr[k] = append([]string(nil), vs...)
+				}
+				slot.Headers = hdr
+			}
+			if rs[i].Body != nil {
+				slot.Body = append(body[:0], rs[i].Body...)
+			}
+			start := buf.Len()
+			must(enc.Encode(&slot))
+			frames = append(frames, KV{"id": i + 1, "start": start, "end": buf.Len()})
+		}
+		return buf.Bytes(), frames
+	}
 	for i := range rs {
 		if i == failAt && c.name == "json" {
 			bad := rs[i]
@@ -376,7 +408,7 @@ func TestDrv_C07(t *testing.T) {
 			for i := range rs {
 				tr.Emit("Encode", KV{"id": i + 1, "r": render(&rs[i])})
 			}
-			data, frames := encodeAll(c, rs)
+			data, frames := encodeAllMode(c, rs, -1, s%2 == 1)
 			records += n
 			dec := c.dec(bytes.NewReader(data))
 			for k := 0; k <= n; k++ {
@@ -839,6 +871,11 @@ func TestDrv_C13(t *testing.T) {
 			eo := filepath.Join(dir, fmt.Sprintf("c13_%d_out.gob", s))
 			ops = append(ops, map[string]any{"op": "encode", "files": paths, "to": "gob", "output": eo})
 			jobs = append(jobs, cmdJob{kind: "encode", lens: lens, rs: files, out: eo})
+			rpaths := paths
+			if s%6 == 0 { // the same file named twice on the command line counts twice
+				rpaths = append(append([]string{}, paths...), paths[0])
+				union = append(append([]vegeta.Result{}, union...), files[0]...)
+			}
 			udata, _ := encodeAll(codecs[0], union)
 			upath := filepath.Join(dir, fmt.Sprintf("c13_%d_union.gob", s))
 			must(os.WriteFile(upath, udata, 0o644))
@@ -846,7 +883,7 @@ func TestDrv_C13(t *testing.T) {
 			so, mo := filepath.Join(dir, fmt.Sprintf("c13_%d_single.rep", s)), filepath.Join(dir, fmt.Sprintf("c13_%d_multi.rep", s))
 			ops = append(ops, map[string]any{"op": "report", "files": []string{upath}, "type": rtype, "output": so})
 			jobs = append(jobs, cmdJob{kind: "single", out: so, rtype: rtype, lens: lens})
-			ops = append(ops, map[string]any{"op": "report", "files": paths, "type": rtype, "output": mo})
+			ops = append(ops, map[string]any{"op": "report", "files": rpaths, "type": rtype, "output": mo})
 			jobs = append(jobs, cmdJob{kind: "report", out: mo, rtype: rtype, lens: lens, pair: len(jobs) - 1})
 		}
 	}
